@@ -76,6 +76,9 @@ type c13Params struct {
 
 func c13Run(p c13Params) func() {
 	return func() {
+		if len(p.waits) > 100 {
+			defer logChoice()()
+		}
 		Pp := mc.Duration(p.pause)*ms + mc.Duration(p.pauseUs)*time.Microsecond
 		sock := fakesock.New("udp")
 		sock.LogHandoff = true
